@@ -27,13 +27,17 @@ Definition to_oci_platform (a : string) : string * string :=
 (* ---- BuildIndex: which images reach the docker-style part of the bundle ----
    tagsToImages is keyed by "<tag>-<strings.ReplaceAll(Platform.Architecture, "/", "_")>";
    manifests are visited in index order and a later manifest with the same key
-   replaces an earlier one. With no tag at all the map stays empty. *)
+   replaces an earlier one (today the key ignores Platform.Variant: finding C12-F1). With no tag at all the map stays empty. *)
 Fixpoint replace_slash (s : string) : string :=
   match s with
   | EmptyString => EmptyString
   | String c s' => String (if Ascii.eqb c "/"%char then "_"%char else c) (replace_slash s')
   end.
-Definition bundle_key (a : string) : string := replace_slash (fst (to_oci_platform a)).
+(* [with_variant] = bundle_key_includes_variant, read from the source on every run *)
+Definition bundle_key_with (with_variant : bool) (a : string) : string :=
+  let p := to_oci_platform a in
+  replace_slash (if with_variant && negb (String.eqb (snd p) "") then (fst p ++ "/" ++ snd p)%string else fst p).
+Definition bundle_key (a : string) : string := bundle_key_with bundle_key_includes_variant a.
 Fixpoint bundle_included (ntags : nat) (archs : list string) : list bool :=
   match archs with
   | [] => []
@@ -105,11 +109,15 @@ Definition nonempty (s : string) : bool := negb (String.eqb s "").
    BuildImageFromLayers ic.VCSUrl is always "" and the source/revision stores
    are never reached (finding C12-F2). The index generator reads the caller's
    configuration directly and is not affected. *)
-Definition copy_for_build (ic : image_config) : image_config :=
+Definition erase_vcs (ic : image_config) : image_config :=
   {| ic_shell_fragment := ic_shell_fragment ic; ic_command := ic_command ic; ic_cmd := ic_cmd ic;
      ic_workdir := ic_workdir ic; ic_run_as := ic_run_as ic; ic_stop_signal := ic_stop_signal ic;
      ic_volumes := ic_volumes ic; ic_env := ic_env ic; ic_annotations := ic_annotations ic;
      ic_vcs_url := "" |}.
+(* [merge_into_copies_vcs_url] is read from the source on every run: once the
+   copy carries VCSUrl the model follows without an edit *)
+Definition copy_for_build (ic : image_config) : image_config :=
+  if merge_into_copies_vcs_url then ic else erase_vcs ic.
 
 Section Config.
   Variable shlex : string -> option (list string).   (* github.com/google/shlex Split; None = error *)
@@ -130,9 +138,8 @@ Section Config.
     if nonempty s then match shlex s with Some l => Ok l | None => Err end else Ok dflt.
 
   (* [base] = config of the base image (empty.Image: all fields empty) *)
-  Definition build_config (base : oci_config) (oic : image_config) (created : Z) (arch : string)
+  Definition build_config_core (base : oci_config) (ic : image_config) (created : Z) (arch : string)
       (dord eord : list string) : res oci_config :=
-    let ic := copy_for_build oic in
     let labels := vcs_annotations image_annotation_stores (ic_vcs_url ic) created (ic_annotations ic) in
     let plat := to_oci_platform arch in
     do ep <- (if nonempty (ic_shell_fragment ic)
@@ -149,6 +156,10 @@ Section Config.
           oc_volumes := match ic_volumes ic with [] => oc_volumes base | vs => vs end;
           oc_env := render_env default_env dord (ic_env ic) eord;
           oc_labels := labels |}.
+
+  Definition build_config (base : oci_config) (oic : image_config) (created : Z) (arch : string)
+      (dord eord : list string) : res oci_config :=
+    build_config_core base (copy_for_build oic) created arch dord eord.
 End Config.
 
 Definition empty_config : oci_config :=
